@@ -21,9 +21,9 @@ import (
 // Known-finding ids; each has a generator exclusion that is on only while the
 // finding is listed as open.
 const (
-	kfC01EscapedEqKey   = "C01-escaped-eq-in-key"
-	kfC01BareQuote      = "C01-bare-quote-outside-string"
-	kfC01StrBackslash   = "C01-string-backslash-delim"
+	kfC01EscapedEqKey = "C01-escaped-eq-in-key"
+	kfC01BareQuote    = "C01-bare-quote-outside-string"
+	kfC01StrBackslash = "C01-string-backslash-delim"
 )
 
 func c01Opts() lpgen.Opts {
